@@ -84,5 +84,11 @@ func (s *Aggregate) VerifySyncInfo(syncInfo hotstuff.SyncInfo) (qc *hotstuff.Quo
 		}
 		return &highQC, view, timeout, nil
 	}
-	return nil, view, timeout, nil // aggregate quorum certificate not present, so no high QC available
+	// A plain QC does not end a view under this rule, but it certifies a block: verify it and hand it back,
+	// so that it becomes the high QC that this replica reports in its timeout messages.
+	// (One that cannot be verified is left out, as every plain QC used to be; it does not spoil the TC.)
+	if plainQC, haveQC := syncInfo.QC(); haveQC && s.auth.VerifyQuorumCert(plainQC) == nil {
+		return &plainQC, view, timeout, nil
+	}
+	return nil, view, timeout, nil // no certificate for a block present, so no high QC available
 }
